@@ -17,7 +17,9 @@ RECURSIVE SeqsUpTo(_)
 SeqsUpTo(n) == IF n = 0 THEN {<<>>} ELSE LET S == SeqsUpTo(n - 1) IN S \cup {Append(s, x) : s \in {t \in S : Len(t) = n - 1}, x \in Items}
 SeqsOf(n) == {s \in SeqsUpTo(n) : Len(s) = n}
 
-Opts == {[rev |-> r, keyf |-> FALSE, cmp |-> c, fail |-> "none", at |-> 0] : r \in BOOLEAN, c \in {"default", "ltdesc"}}
+\* ascending, &reverse, and the opposite callback (its &reverse is the ascending order again)
+Opts == {[rev |-> r, keyf |-> FALSE, cmp |-> "default", fail |-> "none", at |-> 0] : r \in BOOLEAN}
+        \cup {[rev |-> FALSE, keyf |-> FALSE, cmp |-> "ltdesc", fail |-> "none", at |-> 0]}
 
 \* the sequences are grown element by element, so that every worker gets its share of the states
 Init == in = <<>> /\ o \in Opts
